@@ -23,7 +23,9 @@ MANIFEST = dict(
          "order of the residual (sort by symbol, each commodity once). Source shape pinned by an rfl theorem; model run against the "
          "rebuilt binary with the elided posting at every position; an independent Fraction oracle on ledger's reg rows supplies "
          "the failing input.",
-    note="Ordinary and [bracketed] postings share one residual (as the binary does): a real elided posting also offsets bracketed "
+    note="Lots are modelled (see C01): an elided posting next to lots gets one inferred posting per ANNOTATED commodity, in "
+         "compare_by_commodity order; next to a lot sale with a cost it absorbs the difference to the basis cost (ledger's behaviour). "
+         "Ordinary and [bracketed] postings share one residual (as the binary does): a real elided posting also offsets bracketed "
          "amounts. A commodity whose other postings cancel still gets a zero inferred posting when the residual has several entries "
          "(modelled; the oracle accepts a zero row or none). ITEM_GENERATED is not observable through reg --format; `calculated` is.",
     technique="Lean 4 proof (residual invariant + sorted-enumeration independence) + pinned source shape + differential model/binary "
@@ -46,11 +48,11 @@ def run(tier, seed):
     ctx.rule = ("transactions with one amount-less posting at every position among 1-6 other postings over 1-4 commodities "
                 "(prefix/suffix, thousands, quoted, 0-8 decimals), @/@@ costs on the others, (virtual)/[bracketed] kinds, with and "
                 "without an `A` bucket directive; single-posting transactions with a bucket; two or three elided amounts (incl. "
-                "accounts ending in a digit); boundary stream; the elided part of the bounded-exhaustive small set. non-trivial = "
+                "accounts ending in a digit); lots next to the elided posting; boundary stream; the elided part of the bounded-exhaustive small set. non-trivial = "
                 ">= 2 commodities or a cost or a bracketed posting or the elided posting not last; distinct by journal text")
     ctx.assumptions = ["GMP rational arithmetic is exact", "hash-map enumeration order of the residual is a model parameter "
                        "(C02.fill_order_free: irrelevant when a posting is elided)",
-                       "lot annotations and scaling commodities are outside the model and the generators"]
+                       "value-expression annotations, fixed / virtual costs and scaling commodities are outside the model and the generators"]
     if not ctx.prepare():
         return ctx.finish()
     search = bool(ctx.ties_broken)
@@ -80,7 +82,7 @@ def run(tier, seed):
     else:
         step = 5
         cases += exh[rng.randint(0, step - 1)::step]
-    for fam, n in ((g.one_null, 120), (g.two_nulls, 60), (g.single, 80), (g.oddities, 30), (g.balanced, 30), (g.cancelling, 120)):
+    for fam, n in ((g.one_null, 120), (g.two_nulls, 60), (g.single, 80), (g.oddities, 30), (g.balanced, 30), (g.cancelling, 120), (g.lots, 200)):
         cases += [fam() for _ in range(n * k)]
     fc.run_cases(ctx, cases, fc.oracle_c02)
     fc.report_failures(ctx, fc.oracle_c02)
